@@ -456,3 +456,38 @@ Proof.
       destruct (exited_frozen s1 e s3 X1 E3) as [X3 _]. eapply IH; eauto. }
   cbn. rewrite G, andb_false_r. reflexivity.
 Qed.
+
+(* ---------- the drop flag ---------- *)
+Lemma rm_trigger s : rm (trigger s) = rm s.
+Proof. unfold trigger. destruct (auto (set_trig s)); reflexivity. Qed.
+Lemma rm_clamp s : rm (clamp s) = rm s.
+Proof. unfold clamp. destruct (trig s && (total s <=? current s)); [rewrite rm_trigger|]; reflexivity. Qed.
+
+(* the drop flag belongs to the Abort that takes effect: no other operation touches it, and on a bar that is already completed
+   or aborted no operation does — whether a finished bar stays in the last frame and in the notifier's list was decided when
+   it finished *)
+Lemma rm_changes_only_by_effective_abort s o :
+  rm (fst (bapply s o)) <> rm s ->
+  exists d, o = Abort d /\ aborted s = false /\ completed s = false /\ rm (fst (bapply s o)) = d.
+Proof.
+  destruct o; cbn [bapply].
+  - cbn [fst]. rewrite rm_clamp. cbn. congruence.
+  - destruct (c <? 0); cbn [fst]; rewrite ?rm_clamp; cbn; congruence.
+  - cbn [fst]. rewrite rm_clamp. cbn. congruence.
+  - destruct (c <? 0); cbn [fst]; rewrite ?rm_clamp; cbn; congruence.
+  - (* SetTotal *) destruct (trig s); cbn [fst]; [congruence|]. destruct complete; cbn [fst]; rewrite ?rm_trigger; cbn; congruence.
+  - (* Enable *) destruct (trig s); cbn [fst]; [congruence|]. destruct (total s <=? current s); cbn [fst]; rewrite ?rm_trigger; cbn; congruence.
+  - (* SetRefill *) cbn. congruence.
+  - (* Abort *) destruct (aborted s) eqn:A; cbn [orb fst]; [congruence|]. destruct (completed s) eqn:C; cbn [fst]; [congruence|].
+    intros _. exists drop. rewrite rm_trigger. cbn. auto.
+  - cbn. congruence.
+  - cbn. congruence.
+  - cbn. congruence.
+Qed.
+
+Lemma rm_stable_once_finished s o : terminal s = true -> rm (fst (bapply s o)) = rm s.
+Proof.
+  intros T. destruct (Bool.bool_dec (rm (fst (bapply s o))) (rm s)) as [E|N]; [exact E|].
+  destruct (rm_changes_only_by_effective_abort s o N) as (d & _ & A & C & _).
+  unfold terminal in T. rewrite A, C in T. discriminate.
+Qed.
